@@ -51,6 +51,7 @@ func (f *Rem) Call(s *slip.Scope, args slip.List, depth int) (result slip.Object
 		slip.TypePanic(s, depth, "divisor", args[1], "real")
 	}
 	n, d := slip.NormalizeNumber(args[0], args[1])
+	checkDivisor(s, depth, f, args, d)
 	switch num := n.(type) {
 	case slip.Fixnum:
 		div := int64(d.(slip.Fixnum))
